@@ -11,12 +11,14 @@
    world version, and a job's last version is always strictly below it. C07_write_detected_iff shows that this is exactly
    what is needed: a write stamped v is seen iff last < v.
    Histories WITH DESTRUCTION (destroyNow while unlocked, swap-remove relocation, recycled ids) are in the third part of
-   this file (proofs in proofs/VersionDestroy{Arch,Inv,Step,Hist}.v).  Still not proved: archetype moves (assign / remove
-   component), clear, deferred (locked) structural calls. *)
+   this file (proofs in proofs/VersionDestroy{Arch,Inv,Step,Hist}.v).
+   Histories WITH ARCHETYPE MOVES (unlocked assign / removeComponent: externalMove = arrival at the end of the target
+   archetype + swap-remove from the previous one) are in the fourth part (proofs in proofs/VersionMove{Arch,Step,Hist}.v).
+   Still not proved: clear, deferred (locked) structural calls, the entity builder (OBuild), shared-component moves. *)
 Require Import Coq.Lists.List Coq.NArith.NArith Coq.ZArith.ZArith Coq.Arith.Arith Coq.micromega.Lia.
 From Mustache Require Import Res Iter Manager Palette.
-From Mustache.proofs Require Import ManagerMoves VersionProofs IterCover VersionHistory
-  VersionDestroyArch VersionDestroyInv VersionDestroyStep VersionDestroyHist.
+From Mustache.proofs Require Import ManagerBasics ManagerMoves VersionProofs IterCover VersionHistory
+  VersionDestroyArch VersionDestroyInv VersionDestroyStep VersionDestroyHist VersionMoveArch VersionMoveStep VersionMoveHist.
 Import ListNotations.
 
 (* ---- (1) check_and_set: flag, stamped positions, everything else ---- *)
@@ -984,4 +986,461 @@ Proof.
   split; [unfold MASK_BITS; lia|]. split; [vm_compute; reflexivity|]. split; [vm_compute; reflexivity|].
   split; [vm_compute; reflexivity|]. split; [repeat constructor|]. split; [repeat constructor|]. split; [lia|].
   split; vm_compute; reflexivity.
+Qed.
+
+(* ==================================================================================================================== *)
+(* HISTORY LEVEL WITH ARCHETYPE MOVES (proofs/VersionMoveArch.v, VersionMoveStep.v, VersionMoveHist.v).  Alphabet `vopm` =
+   VD o (every operation o of the alphabet above: update, accesses, job runs, unlocked creation, destroyNow), and
+   VAssign tid h c v typed / VRemove tid h c typed (Manager.OAssign / ORemove while unlocked: assign<C>(e [, args]),
+   removeComponent<C>(e) / removeComponent(e, id)).  `mstep` is one operation, `mrun` a script.
+
+   What a move does (EntityManager::assign / removeComponent -> getArchetype -> Archetype::externalMove, archetype.cpp):
+   the entity is appended to the target archetype (pushBack: the version chunk it lands in is stamped with the LIVE world
+   version in every component of the target, every global stamp of the target becomes that version, stale version chunks
+   behind the population are cut off; getArchetype may have just made the target), its cells are moved / constructed, it
+   leaves the previous archetype by Archetype::remove (the `removal` of the third part: the last member is relocated into
+   the hole, both version chunks stamped), its location becomes the new slot.  World version, its cached copy and the jobs
+   are left alone.
+
+   PROPER scripts (proper_mrun): in addition to the condition on destroyNow, every VAssign is applied to a valid handle
+   and every VRemove to a valid handle unless it is the typed call (removeComponent<C>, which tests validity itself):
+   assign and removeComponent(e, id) read the location table without testing the handle, so on a stale handle of a
+   recycled id they would move the entity that owns the id now and record the stale handle in the target archetype.
+   Dependencies and shared components are NOT excluded (getArchetype enters only through: the target exists or is
+   appended empty).  Not covered: clear, locked (deferred) structural calls, the entity builder. *)
+
+(* ---- (1) the invariant of every proper run ---- *)
+Theorem C07_history_invariants_with_moves : forall n cis setup s0 js ops st,
+  population n cis setup s0 -> fresh_jobs js -> (N.of_nat (length ops) < WV_NULL)%N ->
+  proper_mrun ops (s0, js) = true -> mrun ops (s0, js) = Ok st ->
+  VInvD st /\ (wv (fst st) <= N.of_nat (length ops))%N.
+Proof. exact history_invariants_m. Qed.
+Print Assumptions C07_history_invariants_with_moves.
+
+(* one operation: VAssign / VRemove leave the world version, its cached copy and the jobs alone (wv_effect_m); for the
+   other operations wv_effect_d as above *)
+Theorem C07_step_invariant_with_moves : forall st o st' out_,
+  VInvD st -> (wv (fst st) + 1 < WV_NULL)%N -> properm (fst st) o = true -> mstep st o = Ok (st', out_) ->
+  VInvD st' /\ wv_effect_m st o st' out_.
+Proof. exact mstep_inv. Qed.
+Print Assumptions C07_step_invariant_with_moves.
+
+(* ---- (2) the exact effect of one move on populations, stamps and locations ---- *)
+(* move_effect s s' h ai (VersionMoveStep.v): h, located at position pidx of archetype prev (= pa) in s, is in s' the LAST
+   member of archetype ai <> prev; prev underwent `removal pa pa' pidx (wv s)`; the target underwent
+   `arrival (target before, None if new) a2 h (wv s)`: h appended, every component stamp of the version chunk of h's
+   position is wv s, every other member keeps its position and the stamps of its version chunk do not decrease (aframe);
+   the location of h is (ai, last position); every archetype other than prev and ai is unchanged *)
+Theorem C07_assign_effect : forall s js tid (h : handle) c v typed s' out_,
+  VInvD (s, js) -> is_valid s h = true -> step s (OAssign tid h c v typed) = Ok (s', out_) ->
+  VInvD (s', js) /\ wv s' = wv s /\ cached s' = cached s /\ exists ai, move_effect s s' h ai.
+Proof. exact assign_m. Qed.
+Print Assumptions C07_assign_effect.
+
+(* removeComponent: nothing happens (handle not valid, entity without archetype, component absent, or -- with dependencies --
+   the closed mask is the old one), or the entity is moved *)
+Theorem C07_remove_effect : forall s js tid (h : handle) c typed s' out_,
+  VInvD (s, js) -> is_valid s h = true \/ typed = true -> step s (ORemove tid h c typed) = Ok (s', out_) ->
+  VInvD (s', js) /\ wv s' = wv s /\ cached s' = cached s /\
+  (s' = s \/ (is_valid s h = true /\ exists ai, move_effect s s' h ai)).
+Proof. exact remove_m. Qed.
+Print Assumptions C07_remove_effect.
+
+(* Archetype::externalMove in isolation, with its version stamps and the location table: a1 is the target after the ONE
+   emplace of pushBack, a2 the target in the final state (a1 with the entity appended, up to cells); pa -> pa' as in
+   C07_arch_remove_effect *)
+Theorem C07_external_move_effect : forall s ai (h : handle) prev pidx skip s' a pa,
+  nth_error (archs s) ai = Some a -> nth_error (archs s) prev = Some pa -> am_size pa = length (am_ents pa) ->
+  external_move s ai h prev pidx skip = Ok s' ->
+  ai <> prev /\ exists a1 a2 pa' pent last l3,
+    vs_emplace a (wv s) (length (am_ents a)) = Ok a1 /\
+    ab1 a2 = ab1 (with_size (with_ents a1 (am_ents a1 ++ [h])) (Nat.max (am_size a1) (S (length (am_ents a))))) /\
+    nth_error (am_ents pa) pidx = Some pent /\
+    fr2 s' = fr2 s /\ archs s' = upd (upd (archs s) ai a2) prev pa' /\
+    length (am_ents pa) = S last /\ am_mask pa' = am_mask pa /\ am_chunk pa' = am_chunk pa /\ am_size pa' = last /\ 0 < am_chunk pa /\
+    restamped pa pa' (wv s) (fun ch => ch = last / am_chunk pa \/ ch = pidx / am_chunk pa) /\
+    ((pidx = last /\ am_ents pa' = removelast (am_ents pa) /\
+      N.to_nat (fst pent) < length (locs s) /\ l3 = upd (locs s) (N.to_nat (fst pent)) default_loc)
+     \/
+     (pidx <> last /\ exists src dst, nth_error (am_ents pa) last = Some src /\ nth_error (am_ents pa) pidx = Some dst /\
+        am_ents pa' = removelast (upd (am_ents pa) pidx src) /\
+        N.to_nat (fst dst) < length (locs s) /\ N.to_nat (fst src) < length (locs s) /\
+        l3 = upd (upd (locs s) (N.to_nat (fst dst)) default_loc) (N.to_nat (fst src)) {| l_arch := Some prev; l_idx := pidx |})) /\
+    N.to_nat (fst h) < length l3 /\
+    locs s' = upd l3 (N.to_nat (fst h)) {| l_arch := Some ai; l_idx := length (am_ents a) |}.
+Proof. exact external_move_effect. Qed.
+Print Assumptions C07_external_move_effect.
+
+(* pushBack keeps the archetype invariant; the stamps after it *)
+Theorem C07_push_back_effect : forall w a h a1 a2,
+  arch_okd w a -> vs_emplace a w (length (am_ents a)) = Ok a1 ->
+  ab1 a2 = ab1 (with_size (with_ents a1 (am_ents a1 ++ [h])) (Nat.max (am_size a1) (S (length (am_ents a))))) ->
+  (arch_okd w a2 /\ am_ents a2 = am_ents a ++ [h]) /\ aframe a a2 /\
+  am_mask a2 = am_mask a /\ am_chunk a2 = am_chunk a /\ 0 < am_chunk a /\ length (am_gver a2) = length (am_gver a) /\
+  am_gver a2 = map (fun _ => w) (am_gver a) /\
+  length (am_cver a2) = length (am_gver a) * S (length (am_ents a) / am_chunk a) /\
+  (forall i, i < length (am_gver a) -> nth (length (am_gver a) * (length (am_ents a) / am_chunk a) + i) (am_cver a2) 0%N = w) /\
+  (forall ch i, ch < length (am_ents a) / am_chunk a -> i < length (am_gver a) ->
+     nth (length (am_gver a) * ch + i) (am_cver a2) 0%N = nth (length (am_gver a) * ch + i) (am_cver a) 0%N) /\
+  (forall ch i, length (am_ents a) / am_chunk a < ch -> nth (length (am_gver a) * ch + i) (am_cver a2) 0%N = 0%N).
+Proof.
+  intros w a h a1 a2 H1 H2 H3.
+  exact (conj (pushed_okd w a h a1 a2 H1 H2 H3) (conj (pushed_aframe w a h a1 a2 H1 H2 H3) (pushed_stamps w a h a1 a2 H1 H2 H3))).
+Qed.
+Print Assumptions C07_push_back_effect.
+
+(* ---- (3) C07: moved between archetypes ---- *)
+(* moved_into s s' h ai A: after the step h is located in archetype ai (= A); before the step it was not.
+   The move itself: the invariant holds afterwards, the jobs and the world version are untouched, h is the last member of
+   A and every component stamp of its version chunk is the world version (carries ... (wv s)) *)
+Theorem C07_move_arrives : forall s js o st2 out_t (h : handle) ai A c ci,
+  VInvD (s, js) -> is_move o h -> properm s o = true -> mstep (s, js) o = Ok (st2, out_t) -> moved_into s (fst st2) h ai A ->
+  cindex (am_mask A) c = Some ci -> c < MASK_BITS ->
+  VInvD st2 /\ snd st2 = js /\ wv (fst st2) = wv s /\ move_effect s (fst st2) h ai /\
+  carries (fst st2) h ai (am_mask A) c (wv s) /\ nth_error (am_ents A) (length (am_ents A) - 1) = Some h.
+Proof. exact move_arrives. Qed.
+Print Assumptions C07_move_arrives.
+
+(* population, then any proper script `pre` over the extended alphabet; in the state reached entity h is moved into archetype
+   ai (= A) by assign or removeComponent; then any proper script `mid` over the extended alphabet without a run of job jn
+   in which h is not destroyed and not moved again (untouched h mid: no VDestroyNow / VAssign / VRemove on h occurs in
+   it) -- other entities may be moved into and out of A, destroyed and created, h may be relocated by that any number of
+   times --; then jn runs (c in its check mask, c a component of A, A matching its required mask): it is handed h. *)
+Theorem C07_history_moved :
+  forall n cis setup s0 js pre st1 o out_t st2 mid st3 jn par tov wk cap st4 out_ (h : handle) ai A c j,
+  population n cis setup s0 -> fresh_jobs js ->
+  (N.of_nat (length pre) + N.of_nat (length mid) + 2 < WV_NULL)%N ->
+  proper_mrun pre (s0, js) = true -> mrun pre (s0, js) = Ok st1 ->
+  is_move o h -> properm (fst st1) o = true -> mstep st1 o = Ok (st2, out_t) -> moved_into (fst st1) (fst st2) h ai A ->
+  nth_error (snd st1) jn = Some j -> c < MASK_BITS -> mhas (j_check j) c = true -> mhas (am_mask A) c = true ->
+  mmatch (am_mask A) (job_required_mask j) = true ->
+  mrun mid st2 = Ok st3 -> proper_mrun mid st2 = true -> no_run_m jn mid -> untouched h mid -> 0 < cap ->
+  vstep st3 (VRun jn par tov wk cap) = Ok (st4, out_) ->
+  handed out_ h.
+Proof. exact C07_moved_pop. Qed.
+Print Assumptions C07_history_moved.
+
+Theorem C07_history_moved_from_invariant :
+  forall st1 o out_t st2 mid st3 jn par tov wk cap st4 out_ (h : handle) ai A c j,
+  VInvD st1 -> (wv (fst st1) + N.of_nat (length mid) + 2 < WV_NULL)%N ->
+  is_move o h -> properm (fst st1) o = true -> mstep st1 o = Ok (st2, out_t) -> moved_into (fst st1) (fst st2) h ai A ->
+  nth_error (snd st1) jn = Some j -> c < MASK_BITS -> mhas (j_check j) c = true -> mhas (am_mask A) c = true ->
+  mmatch (am_mask A) (job_required_mask j) = true ->
+  mrun mid st2 = Ok st3 -> proper_mrun mid st2 = true -> no_run_m jn mid -> untouched h mid -> 0 < cap ->
+  vstep st3 (VRun jn par tov wk cap) = Ok (st4, out_) ->
+  handed out_ h.
+Proof. exact C07_moved_core. Qed.
+Print Assumptions C07_history_moved_from_invariant.
+
+(* ---- (4) C07 (mutable access / markDirty) over the alphabet with moves ---- *)
+(* as C07_history_with_destruction, but `pre` and `mid` range over the alphabet with moves: between the modification of h and
+   the run of jn other entities may be moved into h's archetype (appended behind it) and out of it (h may be relocated by
+   the swap-remove, any number of times), destroyed and created; h itself stays in its archetype (untouched h mid) *)
+Theorem C07_history_with_moves :
+  forall n cis setup s0 js pre st1 o out_t st2 mid st3 jn par tov wk cap st4 out_ h c ai idx a ci j,
+  population n cis setup s0 -> fresh_jobs js ->
+  (N.of_nat (length pre) + N.of_nat (length mid) + 2 < WV_NULL)%N ->
+  proper_mrun pre (s0, js) = true -> mrun pre (s0, js) = Ok st1 ->
+  is_touch o h c -> touch (fst st1) h c ai idx a ci ->
+  nth_error (snd st1) jn = Some j -> c < MASK_BITS -> mhas (j_check j) c = true ->
+  mmatch (am_mask a) (job_required_mask j) = true ->
+  vstep st1 o = Ok (st2, out_t) ->
+  mrun mid st2 = Ok st3 -> proper_mrun mid st2 = true -> no_run_m jn mid -> untouched h mid -> 0 < cap ->
+  vstep st3 (VRun jn par tov wk cap) = Ok (st4, out_) ->
+  handed out_ h.
+Proof. exact C07_touched_m_pop. Qed.
+Print Assumptions C07_history_with_moves.
+
+Theorem C07_history_with_moves_from_invariant :
+  forall st1 o out_t st2 mid st3 jn par tov wk cap st4 out_ h c ai idx a ci j,
+  VInvD st1 -> (wv (fst st1) + N.of_nat (length mid) + 2 < WV_NULL)%N ->
+  is_touch o h c -> touch (fst st1) h c ai idx a ci ->
+  nth_error (snd st1) jn = Some j -> c < MASK_BITS -> mhas (j_check j) c = true ->
+  mmatch (am_mask a) (job_required_mask j) = true ->
+  vstep st1 o = Ok (st2, out_t) ->
+  mrun mid st2 = Ok st3 -> proper_mrun mid st2 = true -> no_run_m jn mid -> untouched h mid -> 0 < cap ->
+  vstep st3 (VRun jn par tov wk cap) = Ok (st4, out_) ->
+  handed out_ h.
+Proof. exact C07_touched_m_core. Qed.
+Print Assumptions C07_history_with_moves_from_invariant.
+
+(* the tracking lemma behind (3) and (4): `carries s b ai m c W` survives every proper script over the alphabet with moves
+   that leaves b alone *)
+Theorem C07_stamp_follows_entity_with_moves : forall b ai m c W jn ops st st',
+  VInvD st -> (wv (fst st) + N.of_nat (length ops) < WV_NULL)%N -> proper_mrun ops st = true -> c < MASK_BITS ->
+  mrun ops st = Ok st' -> untouched b ops -> no_run_m jn ops -> carries (fst st) b ai m c W ->
+  carries (fst st') b ai m c W /\ nth_error (snd st') jn = nth_error (snd st) jn.
+Proof. exact carries_mrun. Qed.
+Print Assumptions C07_stamp_follows_entity_with_moves.
+
+(* one move of ANOTHER entity h <> b *)
+Theorem C07_stamp_survives_move : forall s js s' (h : handle) ai_t b ai m c W,
+  VInvD (s, js) -> c < MASK_BITS -> move_effect s s' h ai_t -> b <> h -> carries s b ai m c W -> carries s' b ai m c W.
+Proof. exact carries_move. Qed.
+Print Assumptions C07_stamp_survives_move.
+
+(* ---- non-vacuity: concrete histories with moves ---- *)
+(* two archetypes: {0} with entities 0 1 2 and {0,1} with entities 3 4; version chunks of 2; the jobs of the examples above
+   (job 0 writes 0, reads and checks 1, requires both: it matches the second archetype only; job 2 reads 0);
+   update(); run of job 0 (everything); update() *)
+Definition setupm_ex : list op :=
+  [OVerChunk 2; OCreate 0 1%N [] false; OCreate 0 1%N [] false; OCreate 0 1%N [] false; OCreate 0 3%N [] false; OCreate 0 3%N [] false].
+Definition s0m_ex : mst := get_res (setup_run (init 4 cis2) setupm_ex) (init 0 []).
+Definition pre_exm : list vopm := map VD pre_exd.
+Definition st1m_ex : vstate := get_res (mrun pre_exm (s0m_ex, jobs_ex)) vst_dummy.
+(* assign<component 1>(entity 0): it leaves {0} -- entity 2, the last one, moves into its slot -- and arrives behind 3 and 4 *)
+Definition movm_ex : vopm := VAssign 0 (0, 0)%N 1 ADefault false.
+Definition st2m_ex : vstate := fst (get_res (mstep st1m_ex movm_ex) (vst_dummy, RNone)).
+(* manager update; removeComponent<1>(entity 3): it leaves {0,1}, and entity 0 -- the last one -- is relocated into slot 0;
+   a run of job 2; assign<1>(entity 1, 5): it arrives behind 0 and 4; world update *)
+Definition midm_ex : list vopm :=
+  [VD (VOld (VUpdate false)); VRemove 0 (3, 0)%N 1 true; VD (VOld (VRun 2 true 0 3 16)); VAssign 0 (1, 0)%N 1 (AValue 5%Z) true;
+   VD (VOld (VUpdate true))].
+Definition st3m_ex : vstate := get_res (mrun midm_ex st2m_ex) vst_dummy.
+Definition show_archs (st : vstate) := map (fun a => (am_mask a, am_ents a, am_gver a, am_cver a)) (archs (fst st)).
+Definition show_locs (st : vstate) := map (fun l => (l_arch l, l_idx l)) (locs (fst st)).
+
+Lemma populationm_ex : population 4 cis2 setupm_ex s0m_ex.
+Proof. split; [repeat constructor|vm_compute; reflexivity]. Qed.
+
+Lemma VInvD_st1m_ex : VInvD st1m_ex.
+Proof.
+  refine (proj1 (C07_history_invariants_with_moves 4 cis2 setupm_ex s0m_ex jobs_ex pre_exm st1m_ex populationm_ex (proj2 population_ex) _ _ _));
+    vm_compute; reflexivity.
+Qed.
+
+Example C07_history_invariants_with_moves_example :
+  population 4 cis2 setupm_ex s0m_ex /\ fresh_jobs jobs_ex /\
+  (N.of_nat (length (pre_exm ++ movm_ex :: midm_ex)) < WV_NULL)%N /\
+  proper_mrun (pre_exm ++ movm_ex :: midm_ex) (s0m_ex, jobs_ex) = true /\
+  mrun (pre_exm ++ movm_ex :: midm_ex) (s0m_ex, jobs_ex) = Ok st3m_ex /\
+  wv (fst st3m_ex) = 5%N /\
+  show_archs st1m_ex = [(1, [(0, 0); (1, 0); (2, 0)], [0], [0; 0]); (3, [(3, 0); (4, 0)], [1; 0], [1; 0])]%N /\
+  show_archs st2m_ex = [(1, [(2, 0); (1, 0)], [3], [3; 3]); (3, [(3, 0); (4, 0); (0, 0)], [3; 3], [1; 0; 3; 3])]%N /\
+  show_archs st3m_ex = [(1, [(2, 0); (3, 0)], [4], [4; 4]); (3, [(0, 0); (4, 0); (1, 0)], [4; 4], [3; 3; 4; 4])]%N /\
+  show_locs st3m_ex = [(Some 1, 0); (Some 1, 2); (Some 0, 0); (Some 0, 1); (Some 1, 1)].
+Proof.
+  split; [exact populationm_ex|]. split; [apply population_ex|]. vm_conj.
+Qed.
+
+Lemma is_move_movm_ex : is_move movm_ex (0, 0)%N.
+Proof. left. do 4 eexists. reflexivity. Qed.
+
+Lemma moved_into_ex : exists A, moved_into (fst st1m_ex) (fst st2m_ex) (0, 0)%N 1 A /\ am_mask A = 3%N.
+Proof.
+  eexists. split; [split; [|split]|].
+  - eexists. split; [vm_compute; reflexivity|reflexivity].
+  - intros l Hl. vm_compute in Hl. inversion Hl; subst l. cbn. discriminate.
+  - vm_compute. reflexivity.
+  - reflexivity.
+Qed.
+
+(* entity 0 is moved into {0,1} at position 2 (version chunk 1, stamped 3 in both components); job 0 (last run at version 1)
+   is handed it after the script midm_ex, in which it is relocated to position 0 by the departure of entity 3 -- together
+   with entities 4 and 1 (every version chunk of the archetype was stamped by the moves) *)
+Example C07_history_moved_example :
+  exists out_t st4 out_ A j,
+  population 4 cis2 setupm_ex s0m_ex /\ fresh_jobs jobs_ex /\
+  (N.of_nat (length pre_exm) + N.of_nat (length midm_ex) + 2 < WV_NULL)%N /\
+  proper_mrun pre_exm (s0m_ex, jobs_ex) = true /\ mrun pre_exm (s0m_ex, jobs_ex) = Ok st1m_ex /\
+  is_move movm_ex (0, 0)%N /\ properm (fst st1m_ex) movm_ex = true /\ mstep st1m_ex movm_ex = Ok (st2m_ex, out_t) /\
+  moved_into (fst st1m_ex) (fst st2m_ex) (0, 0)%N 1 A /\
+  nth_error (snd st1m_ex) 0 = Some j /\ 1 < MASK_BITS /\ mhas (j_check j) 1 = true /\ mhas (am_mask A) 1 = true /\
+  mmatch (am_mask A) (job_required_mask j) = true /\
+  mrun midm_ex st2m_ex = Ok st3m_ex /\ proper_mrun midm_ex st2m_ex = true /\ no_run_m 0 midm_ex /\ untouched (0, 0)%N midm_ex /\ 0 < 16 /\
+  vstep st3m_ex (VRun 0 true 0 3 16) = Ok (st4, out_) /\
+  handles_of out_ = [(0, 0); (4, 0); (1, 0)]%N /\ j_last j = 1%N.
+Proof.
+  destruct moved_into_ex as (A & HA & EA).
+  eexists. eexists. eexists. exists A. eexists.
+  split; [exact populationm_ex|]. split; [apply population_ex|]. split; [vm_compute; reflexivity|].
+  split; [vm_compute; reflexivity|]. split; [vm_compute; reflexivity|]. split; [exact is_move_movm_ex|].
+  split; [vm_compute; reflexivity|]. split; [vm_compute; reflexivity|]. split; [exact HA|].
+  split; [vm_compute; reflexivity|]. split; [unfold MASK_BITS; lia|]. split; [vm_compute; reflexivity|].
+  split; [rewrite EA; vm_compute; reflexivity|]. split; [rewrite EA; vm_compute; reflexivity|].
+  split; [vm_compute; reflexivity|]. split; [vm_compute; reflexivity|].
+  split; [repeat constructor; cbn; discriminate|]. split; [repeat constructor; cbn; discriminate|]. split; [lia|].
+  split; [vm_compute; reflexivity|]. split; vm_compute; reflexivity.
+Qed.
+
+Example C07_history_moved_from_invariant_example :
+  exists out_t st4 out_ A j,
+  VInvD st1m_ex /\ (wv (fst st1m_ex) + N.of_nat (length midm_ex) + 2 < WV_NULL)%N /\
+  is_move movm_ex (0, 0)%N /\ properm (fst st1m_ex) movm_ex = true /\ mstep st1m_ex movm_ex = Ok (st2m_ex, out_t) /\
+  moved_into (fst st1m_ex) (fst st2m_ex) (0, 0)%N 1 A /\
+  nth_error (snd st1m_ex) 0 = Some j /\ 1 < MASK_BITS /\ mhas (j_check j) 1 = true /\ mhas (am_mask A) 1 = true /\
+  mmatch (am_mask A) (job_required_mask j) = true /\
+  mrun midm_ex st2m_ex = Ok st3m_ex /\ proper_mrun midm_ex st2m_ex = true /\ no_run_m 0 midm_ex /\ untouched (0, 0)%N midm_ex /\ 0 < 16 /\
+  vstep st3m_ex (VRun 0 true 0 3 16) = Ok (st4, out_).
+Proof.
+  destruct moved_into_ex as (A & HA & EA).
+  eexists. eexists. eexists. exists A. eexists.
+  split; [exact VInvD_st1m_ex|]. split; [vm_compute; reflexivity|]. split; [exact is_move_movm_ex|].
+  split; [vm_compute; reflexivity|]. split; [vm_compute; reflexivity|]. split; [exact HA|].
+  split; [vm_compute; reflexivity|]. split; [unfold MASK_BITS; lia|]. split; [vm_compute; reflexivity|].
+  split; [rewrite EA; vm_compute; reflexivity|]. split; [rewrite EA; vm_compute; reflexivity|].
+  split; [vm_compute; reflexivity|]. split; [vm_compute; reflexivity|].
+  split; [repeat constructor; cbn; discriminate|]. split; [repeat constructor; cbn; discriminate|]. split; [lia|].
+  vm_compute; reflexivity.
+Qed.
+
+(* the move itself *)
+Example C07_move_arrives_example :
+  exists out_t A,
+  VInvD (fst st1m_ex, snd st1m_ex) /\ is_move movm_ex (0, 0)%N /\ properm (fst st1m_ex) movm_ex = true /\
+  mstep (fst st1m_ex, snd st1m_ex) movm_ex = Ok (st2m_ex, out_t) /\ moved_into (fst st1m_ex) (fst st2m_ex) (0, 0)%N 1 A /\
+  cindex (am_mask A) 1 = Some 1 /\ 1 < MASK_BITS /\
+  show_locs st1m_ex = [(Some 0, 0); (Some 0, 1); (Some 0, 2); (Some 1, 0); (Some 1, 1)] /\
+  show_locs st2m_ex = [(Some 1, 2); (Some 0, 1); (Some 0, 0); (Some 1, 0); (Some 1, 1)].
+Proof.
+  destruct moved_into_ex as (A & HA & EA).
+  eexists. exists A. split; [apply VInvD_pair, VInvD_st1m_ex|]. split; [exact is_move_movm_ex|].
+  split; [vm_compute; reflexivity|]. split; [vm_compute; reflexivity|]. split; [exact HA|].
+  split; [rewrite EA; vm_compute; reflexivity|]. split; [unfold MASK_BITS; lia|]. split; vm_compute; reflexivity.
+Qed.
+
+Example C07_step_invariant_with_moves_example :
+  exists out_t,
+  VInvD st1m_ex /\ (wv (fst st1m_ex) + 1 < WV_NULL)%N /\ properm (fst st1m_ex) movm_ex = true /\
+  mstep st1m_ex movm_ex = Ok (st2m_ex, out_t).
+Proof. eexists. split; [exact VInvD_st1m_ex|]. vm_conj. Qed.
+
+(* hypotheses of the one-step theorems; removeComponent<0>(entity 3) makes getArchetype create the archetype {1}: the
+   entity arrives as its only member (version chunk 0 stamped), entity 4 is relocated to slot 0 of {0,1} *)
+Example C07_assign_remove_effect_example :
+  (exists s' out_, VInvD (fst st1m_ex, snd st1m_ex) /\ is_valid (fst st1m_ex) (0, 0)%N = true /\
+     step (fst st1m_ex) (OAssign 0 (0, 0)%N 1 ADefault false) = Ok (s', out_) /\ s' = fst st2m_ex) /\
+  (exists s' out_, VInvD (fst st1m_ex, snd st1m_ex) /\ (is_valid (fst st1m_ex) (3, 0)%N = true \/ true = true) /\
+     step (fst st1m_ex) (ORemove 0 (3, 0)%N 0 true) = Ok (s', out_) /\
+     map (fun a => (am_mask a, am_ents a, am_gver a, am_cver a)) (archs s') =
+       [(1, [(0, 0); (1, 0); (2, 0)], [0], [0; 0]); (3, [(4, 0)], [3; 3], [3; 3]); (2, [(3, 0)], [3], [3])]%N) /\
+  (* removeComponent of a component the entity does not have, and the typed call on a handle that is not valid: nothing *)
+  step (fst st1m_ex) (ORemove 0 (0, 0)%N 1 false) = Ok (fst st1m_ex, RNone) /\
+  step (fst st1m_ex) (ORemove 0 (9, 9)%N 1 true) = Ok (fst st1m_ex, RNone).
+Proof.
+  split; [eexists; eexists; split; [apply VInvD_pair, VInvD_st1m_ex|vm_conj]|].
+  split; [eexists; eexists; split; [apply VInvD_pair, VInvD_st1m_ex|split; [left; vm_compute; reflexivity|vm_conj]]|]. vm_conj.
+Qed.
+
+Example C07_external_move_effect_example :
+  exists a pa s',
+  nth_error (archs (fst st1m_ex)) 1 = Some a /\ nth_error (archs (fst st1m_ex)) 0 = Some pa /\ am_size pa = length (am_ents pa) /\
+  external_move (fst st1m_ex) 1 (0, 0)%N 0 0 0%N = Ok s' /\
+  map (fun a => (am_mask a, am_ents a, am_gver a, am_cver a)) (archs s') =
+    [(1, [(2, 0); (1, 0)], [3], [3; 3]); (3, [(3, 0); (4, 0); (0, 0)], [3; 3], [1; 0; 3; 3])]%N.
+Proof. eexists. eexists. eexists. vm_conj. Qed.
+
+Example C07_push_back_effect_example :
+  exists a a1 a2,
+  nth_error (archs (fst st1m_ex)) 1 = Some a /\ arch_okd (wv (fst st1m_ex)) a /\
+  vs_emplace a (wv (fst st1m_ex)) (length (am_ents a)) = Ok a1 /\
+  ab1 a2 = ab1 (with_size (with_ents a1 (am_ents a1 ++ [(0, 0)%N])) (Nat.max (am_size a1) (S (length (am_ents a))))) /\
+  wv (fst st1m_ex) = 3%N /\ am_gver a2 = [3; 3]%N /\ am_cver a2 = [1; 0; 3; 3]%N /\ am_ents a2 = [(3, 0); (4, 0); (0, 0)]%N.
+Proof.
+  assert (Ha : exists a, nth_error (archs (fst st1m_ex)) 1 = Some a) by (eexists; vm_compute; reflexivity).
+  destruct Ha as (a & Ha). exists a.
+  pose proof (Forall_nth_error _ _ _ _ (vd_archs _ VInvD_st1m_ex) Ha) as Hok.
+  assert (Ea : Some a = nth_error (archs (fst st1m_ex)) 1) by (symmetry; exact Ha). vm_compute in Ea. inversion Ea; subst a; clear Ea.
+  eexists. eexists. split; [exact Ha|]. split; [exact Hok|]. split; [vm_compute; reflexivity|]. split; [reflexivity|].
+  split; [vm_compute; reflexivity|]. split; [reflexivity|]. split; reflexivity.
+Qed.
+
+(* write access to component 1 of entity 4 (slot 1 of {0,1}, version chunk 0)  |  removeComponent(entity 3, 1): entity 4 is
+   relocated to slot 0; manager update; assign<1>(entity 0): it arrives behind entity 4; destroyNow(entity 1); world update
+   |  run of job 0: it is handed entity 4 (and entity 0) *)
+Definition st2mt_ex : vstate := fst (get_res (vstep st1m_ex (VGetMut (4, 0)%N 1 (Some 7%Z))) (vst_dummy, RNone)).
+Definition midmt_ex : list vopm :=
+  [VRemove 0 (3, 0)%N 1 false; VD (VOld (VUpdate false)); VAssign 0 (0, 0)%N 1 ADefault false; VD (VDestroyNow 0 (1, 0)%N);
+   VD (VOld (VUpdate true))].
+Definition st3mt_ex : vstate := get_res (mrun midmt_ex st2mt_ex) vst_dummy.
+
+Example C07_history_with_moves_example :
+  exists out_t st4 out_ a j,
+  population 4 cis2 setupm_ex s0m_ex /\ fresh_jobs jobs_ex /\
+  (N.of_nat (length pre_exm) + N.of_nat (length midmt_ex) + 2 < WV_NULL)%N /\
+  proper_mrun pre_exm (s0m_ex, jobs_ex) = true /\ mrun pre_exm (s0m_ex, jobs_ex) = Ok st1m_ex /\
+  is_touch (VGetMut (4, 0)%N 1 (Some 7%Z)) (4, 0)%N 1 /\ touch (fst st1m_ex) (4, 0)%N 1 1 1 a 1 /\
+  nth_error (snd st1m_ex) 0 = Some j /\ 1 < MASK_BITS /\ mhas (j_check j) 1 = true /\
+  mmatch (am_mask a) (job_required_mask j) = true /\
+  vstep st1m_ex (VGetMut (4, 0)%N 1 (Some 7%Z)) = Ok (st2mt_ex, out_t) /\
+  mrun midmt_ex st2mt_ex = Ok st3mt_ex /\ proper_mrun midmt_ex st2mt_ex = true /\ no_run_m 0 midmt_ex /\ untouched (4, 0)%N midmt_ex /\ 0 < 16 /\
+  vstep st3mt_ex (VRun 0 true 0 3 16) = Ok (st4, out_) /\
+  handles_of out_ = [(4, 0); (0, 0)]%N /\
+  show_archs st2mt_ex = [(1, [(0, 0); (1, 0); (2, 0)], [0], [0; 0]); (3, [(3, 0); (4, 0)], [1; 3], [1; 3])]%N /\
+  show_archs st3mt_ex = [(1, [(3, 0); (2, 0)], [3], [3; 3]); (3, [(4, 0); (0, 0)], [3; 3], [3; 3])]%N.
+Proof.
+  eexists. eexists. eexists. eexists. eexists.
+  split; [exact populationm_ex|]. split; [apply population_ex|]. split; [vm_compute; reflexivity|].
+  split; [vm_compute; reflexivity|]. split; [vm_compute; reflexivity|]. split; [left; eexists; reflexivity|].
+  split.
+  { split; [vm_compute; reflexivity|]. split; [eexists; split; [vm_compute; reflexivity|split; reflexivity]|].
+    split; [vm_compute; reflexivity|vm_compute; reflexivity]. }
+  split; [vm_compute; reflexivity|]. split; [unfold MASK_BITS; lia|]. split; [vm_compute; reflexivity|].
+  split; [vm_compute; reflexivity|]. split; [vm_compute; reflexivity|]. split; [vm_compute; reflexivity|].
+  split; [vm_compute; reflexivity|]. split; [repeat constructor; cbn; discriminate|].
+  split; [repeat constructor; cbn; discriminate|]. split; [lia|].
+  split; [vm_compute; reflexivity|]. split; [vm_compute; reflexivity|]. split; vm_compute; reflexivity.
+Qed.
+
+Example C07_history_with_moves_from_invariant_example :
+  exists out_t st4 out_ a j,
+  VInvD st1m_ex /\ (wv (fst st1m_ex) + N.of_nat (length midmt_ex) + 2 < WV_NULL)%N /\
+  is_touch (VGetMut (4, 0)%N 1 (Some 7%Z)) (4, 0)%N 1 /\ touch (fst st1m_ex) (4, 0)%N 1 1 1 a 1 /\
+  nth_error (snd st1m_ex) 0 = Some j /\ 1 < MASK_BITS /\ mhas (j_check j) 1 = true /\
+  mmatch (am_mask a) (job_required_mask j) = true /\
+  vstep st1m_ex (VGetMut (4, 0)%N 1 (Some 7%Z)) = Ok (st2mt_ex, out_t) /\
+  mrun midmt_ex st2mt_ex = Ok st3mt_ex /\ proper_mrun midmt_ex st2mt_ex = true /\ no_run_m 0 midmt_ex /\ untouched (4, 0)%N midmt_ex /\ 0 < 16 /\
+  vstep st3mt_ex (VRun 0 true 0 3 16) = Ok (st4, out_).
+Proof.
+  eexists. eexists. eexists. eexists. eexists.
+  split; [exact VInvD_st1m_ex|]. split; [vm_compute; reflexivity|]. split; [left; eexists; reflexivity|].
+  split.
+  { split; [vm_compute; reflexivity|]. split; [eexists; split; [vm_compute; reflexivity|split; reflexivity]|].
+    split; [vm_compute; reflexivity|vm_compute; reflexivity]. }
+  split; [vm_compute; reflexivity|]. split; [unfold MASK_BITS; lia|]. split; [vm_compute; reflexivity|].
+  split; [vm_compute; reflexivity|]. split; [vm_compute; reflexivity|]. split; [vm_compute; reflexivity|].
+  split; [vm_compute; reflexivity|]. split; [repeat constructor; cbn; discriminate|].
+  split; [repeat constructor; cbn; discriminate|]. split; [lia|]. vm_compute; reflexivity.
+Qed.
+
+(* the stamp follows the entity: entity 4 carries the stamp 3 of component 1 through the script midmt_ex; one move of another
+   entity (removeComponent(entity 3, 1)) on the way *)
+Lemma VInvD_st2mt_ex : VInvD st2mt_ex.
+Proof.
+  refine (proj1 (C07_history_invariants_with_moves 4 cis2 setupm_ex s0m_ex jobs_ex
+            (pre_exm ++ [VD (VOld (VGetMut (4, 0)%N 1 (Some 7%Z)))]) st2mt_ex populationm_ex (proj2 population_ex) _ _ _));
+    vm_compute; reflexivity.
+Qed.
+
+Example C07_stamp_follows_entity_with_moves_example :
+  VInvD st2mt_ex /\ (wv (fst st2mt_ex) + N.of_nat (length midmt_ex) < WV_NULL)%N /\ proper_mrun midmt_ex st2mt_ex = true /\ 1 < MASK_BITS /\
+  mrun midmt_ex st2mt_ex = Ok st3mt_ex /\ untouched (4, 0)%N midmt_ex /\ no_run_m 0 midmt_ex /\
+  carries (fst st2mt_ex) (4, 0)%N 1 3%N 1 3%N.
+Proof.
+  split; [exact VInvD_st2mt_ex|]. split; [vm_compute; reflexivity|]. split; [vm_compute; reflexivity|]. split; [unfold MASK_BITS; lia|].
+  split; [vm_compute; reflexivity|]. split; [repeat constructor; cbn; discriminate|]. split; [repeat constructor; cbn; discriminate|].
+  eexists. exists 1, 1. split; [vm_compute; reflexivity|]. split; [vm_compute; reflexivity|]. split; [vm_compute; reflexivity|].
+  split; [vm_compute; reflexivity|]. vm_compute. discriminate.
+Qed.
+
+Definition s_rm_ex : mst := fst (get_res (step (fst st2mt_ex) (ORemove 0 (3, 0)%N 1 false)) (init 0 [], RNone)).
+
+Example C07_stamp_survives_move_example :
+  exists ai_t,
+  VInvD (fst st2mt_ex, snd st2mt_ex) /\ 1 < MASK_BITS /\
+  step (fst st2mt_ex) (ORemove 0 (3, 0)%N 1 false) = Ok (s_rm_ex, RNone) /\
+  move_effect (fst st2mt_ex) s_rm_ex (3, 0)%N ai_t /\ (4, 0)%N <> (3, 0)%N /\
+  carries (fst st2mt_ex) (4, 0)%N 1 3%N 1 3%N /\
+  map (fun a => (am_mask a, am_ents a, am_gver a, am_cver a)) (archs s_rm_ex) =
+    [(1, [(0, 0); (1, 0); (2, 0); (3, 0)], [3], [0; 3]); (3, [(4, 0)], [3; 3], [3; 3])]%N.
+Proof.
+  assert (Hstep : step (fst st2mt_ex) (ORemove 0 (3, 0)%N 1 false) = Ok (s_rm_ex, RNone)) by (vm_compute; reflexivity).
+  assert (Hv : is_valid (fst st2mt_ex) (3, 0)%N = true) by (vm_compute; reflexivity).
+  destruct (C07_remove_effect _ _ _ _ _ _ _ _ (VInvD_pair _ VInvD_st2mt_ex) (or_introl Hv) Hstep) as (_ & _ & _ & [E|(_ & ai_t & Heff)]).
+  { exfalso. apply (f_equal (fun s => map (fun a => length (am_ents a)) (archs s))) in E. vm_compute in E. discriminate. }
+  exists ai_t. split; [apply VInvD_pair, VInvD_st2mt_ex|]. split; [unfold MASK_BITS; lia|]. split; [exact Hstep|].
+  split; [exact Heff|]. split; [discriminate|]. split.
+  - eexists. exists 1, 1. split; [vm_compute; reflexivity|]. split; [vm_compute; reflexivity|]. split; [vm_compute; reflexivity|].
+    split; [vm_compute; reflexivity|]. vm_compute. discriminate.
+  - vm_compute. reflexivity.
 Qed.
